@@ -51,6 +51,7 @@ type access struct {
 	via    string
 	goro   int
 	line   int
+	phase  int // own-body accesses: 0 before the method's first lock, 1 while it is held, 2 after it was released
 }
 
 func (a access) key() string {
@@ -58,6 +59,7 @@ func (a access) key() string {
 }
 
 type callEdge struct {
+	phase  int
 	callee string
 	mode   string
 	sub    string
@@ -218,9 +220,9 @@ func collectType(p *pkgSrc, name string) *typeFacts {
 		}
 	}
 	for _, m := range tf.methods {
-		w := &walker{p: p, tf: tf, m: m, recv: m.recvName, alias: map[string]string{}, atomicAlias: map[string]string{}}
+		w := &walker{p: p, tf: tf, m: m, recv: m.recvName, alias: map[string]string{}, atomicAlias: map[string]string{}, lockAlias: map[string]string{}}
 		w.prescan(m.decl.Body)
-		w.walkBlock(m.decl.Body.List, wctx{mode: "none", before: true}, true)
+		w.flowFunction()
 		m.elemEscapes = elemEscapes(tf, m)
 	}
 	closeAccesses(tf)
@@ -247,7 +249,8 @@ type walker struct {
 	atomicAlias map[string]string // local -> receiver field whose address it holds and that is used in atomic.* calls only
 	goCount     int
 	primary     string // this method's primary lock path
-	regionsSeen int
+	lockAlias   map[string]string // local -> receiver mutex field whose address it holds (mu := &recv.mutex)
+	flowState
 }
 
 func (w *walker) isField(n string) bool { _, ok := w.tf.si.fieldIdx[n]; return ok }
@@ -263,7 +266,7 @@ func (w *walker) isMutexField(n string) bool {
 
 func (w *walker) add(field, kind string, c wctx, callee string, n ast.Node) {
 	a := access{field: field, fid: w.tf.si.fid(field), kind: kind, mode: c.mode, sub: c.sub, subID: w.tf.si.lockID(c.sub),
-		callee: callee, goro: c.goro, line: w.p.line(n)}
+		callee: callee, goro: c.goro, line: w.p.line(n), phase: w.phase()}
 	if c.goro != 0 {
 		a.via = fmt.Sprintf("go#%d", c.goro)
 	}
@@ -344,7 +347,10 @@ func (w *walker) lockPath(e ast.Expr) string {
 		return f + "." + r
 	}
 	if id, ok := e.(*ast.Ident); ok {
-		// a bare local (mu := &x.mu; mu.Lock()): never to be confused with a receiver field of the same name
+		if f, ok := w.lockAlias[id.Name]; ok {
+			return f // mu := &recv.mutex; mu.Lock()
+		}
+		// any other bare local (mu := &x.mu; mu.Lock()): never to be confused with a receiver field of the same name
 		return "local:" + id.Name
 	}
 	return w.p.text(e)
@@ -453,6 +459,9 @@ func (w *walker) prescan(body *ast.BlockStmt) {
 		if uses == atomicUses+1 && atomicUses > 0 { // +1: the defining occurrence
 			w.atomicAlias[name] = field
 		}
+		if w.isMutexField(field) {
+			w.lockAlias[name] = field // mu := &recv.mutex
+		}
 	}
 }
 
@@ -494,257 +503,6 @@ func unlockOf(op string) string {
 		return "RUnlock"
 	}
 	return "Unlock"
-}
-
-// walkBlock walks a statement list, tracking lock/unlock pairs opened and closed at this nesting level.
-func (w *walker) walkBlock(stmts []ast.Stmt, c wctx, top bool) {
-	skip := map[int]bool{}
-	for i := 0; i < len(stmts); i++ {
-		if skip[i] {
-			continue
-		}
-		s := stmts[i]
-		path, op, deferred, ok := stmtLock(w, s)
-		if !ok {
-			w.walkStmt(s, c)
-			continue
-		}
-		if op == "Unlock" || op == "RUnlock" {
-			// an unlock that does not close a lock opened at this level (early unlock in a branch, ...)
-			w.unknown("<"+op+" of "+path+" without a lock at the same nesting level>", c, s)
-			continue
-		}
-		if deferred {
-			w.unknown("<deferred "+op+" of "+path+">", c, s)
-			continue
-		}
-		// find the release
-		rel, relDeferred := -1, false
-		for j := i + 1; j < len(stmts); j++ {
-			p2, op2, d2, ok2 := stmtLock(w, stmts[j])
-			if ok2 && p2 == path && op2 == unlockOf(op) {
-				rel, relDeferred = j, d2
-				break
-			}
-			if ok2 && p2 == path { // same mutex, wrong operation (Lock ... RUnlock, double Lock)
-				break
-			}
-		}
-		primary := w.isPrimary(path)
-		inner := c
-		if primary {
-			if c.mode != "none" {
-				w.m.reentrant = true
-			}
-			inner.mode = lockMode(op)
-		} else {
-			inner.sub = path
-		}
-		if rel < 0 {
-			w.unknown("<"+op+" of "+path+" without a matching "+unlockOf(op)+" in the same block>", c, s)
-			if top && primary && w.m.lock == "" {
-				w.m.lock, w.m.mutex = "unknown", path
-			}
-			w.walkBlockTail(stmts[i+1:], inner)
-			return
-		}
-		var region []ast.Stmt
-		var rest []ast.Stmt
-		if relDeferred {
-			// statements between Lock and defer Unlock run under the lock as well
-			region = append(append([]ast.Stmt{}, stmts[i+1:rel]...), stmts[rel+1:]...)
-			if !top {
-				// a deferred unlock in a nested block releases at function return, not at block end
-				w.unknown("<defer "+unlockOf(op)+" of "+path+" inside a nested block>", c, s)
-			}
-		} else {
-			region = stmts[i+1 : rel]
-			rest = stmts[rel+1:]
-		}
-		if primary {
-			w.m.ownRegions++
-			if c.loop {
-				w.m.ownRegions++
-			}
-			w.regionsSeen++
-		}
-		if top && w.m.lock != "" && primary && c.mode == "none" {
-			w.m.lock = "partialBody" // a second critical section at the top level of the body
-		}
-		if top && w.m.lock == "" {
-			// method summary = shape of the first lock taken at the top level of the body
-			w.m.lock, w.m.mutex, w.m.deferred = lockMode(op), path, relDeferred
-			w.m.pre, w.m.region = i, len(region)
-			w.m.post = len(rest)
-			if !relDeferred {
-				// explicit pair: it brackets the body when only plain returns of locals follow
-				for _, r := range rest {
-					if rs, ok := r.(*ast.ReturnStmt); ok && !w.mentionsRecv(rs) {
-						continue
-					}
-					w.m.lock = "partialBody"
-				}
-			}
-		}
-		inner.before = false
-		// the remainder of the function body after `Lock; defer Unlock` is still function-level
-		w.walkBlock(region, inner, top && relDeferred)
-		if relDeferred {
-			return
-		}
-		// continue after the release with the outer context
-		c.before = c.before && !primary
-		i = rel
-	}
-}
-
-// walkBlockTail walks the remainder of a block after an unmatched lock.
-func (w *walker) walkBlockTail(stmts []ast.Stmt, c wctx) {
-	for _, s := range stmts {
-		if _, _, _, ok := stmtLock(w, s); ok {
-			w.unknown("<lock operation after an unmatched lock>", c, s)
-			continue
-		}
-		w.walkStmt(s, c)
-	}
-}
-
-func (w *walker) mentionsRecv(n ast.Node) bool {
-	found := false
-	ast.Inspect(n, func(x ast.Node) bool {
-		if id, ok := x.(*ast.Ident); ok && (id.Name == w.recv) {
-			found = true
-		}
-		if id, ok := x.(*ast.Ident); ok {
-			if _, isAlias := w.alias[id.Name]; isAlias {
-				found = true
-			}
-		}
-		return !found
-	})
-	return found
-}
-
-func (w *walker) walkStmt(s ast.Stmt, c wctx) {
-	switch x := s.(type) {
-	case nil:
-	case *ast.ExprStmt:
-		if path, op, ok := w.lockCall(x.X); ok {
-			w.unknown("<"+op+" of "+path+" in an unexpected position>", c, s)
-			return
-		}
-		w.walkExpr(x.X, c)
-	case *ast.AssignStmt:
-		for _, r := range x.Rhs {
-			w.walkExpr(r, c)
-		}
-		for i, l := range x.Lhs {
-			var r ast.Expr
-			if len(x.Lhs) == len(x.Rhs) {
-				r = x.Rhs[i]
-			}
-			w.walkLHS(l, c, r, x)
-		}
-	case *ast.IncDecStmt:
-		w.walkLHS(x.X, c, nil, x)
-	case *ast.GoStmt:
-		w.goCount++
-		n := w.goCount
-		gc := wctx{mode: "none", goro: n} // conservatively: the goroutine may outlive the body and its locks
-		gi := goroutineInfo{ord: n, line: w.p.line(x)}
-		if fl, ok := x.Call.Fun.(*ast.FuncLit); ok {
-			for _, a := range x.Call.Args {
-				w.walkExpr(a, c)
-			}
-			gi.captured, gi.usesRecv = w.captured(fl)
-			w.walkBlock(fl.Body.List, gc, false)
-		} else {
-			w.walkExpr(x.Call, gc)
-			gi.usesRecv = w.mentionsRecv(x.Call)
-		}
-		w.m.goros = append(w.m.goros, gi)
-	case *ast.DeferStmt:
-		if path, op, ok := w.lockCall(x.Call); ok {
-			w.unknown("<deferred "+op+" of "+path+" in an unexpected position>", c, s)
-			return
-		}
-		if fl, ok := x.Call.Fun.(*ast.FuncLit); ok {
-			w.walkBlock(fl.Body.List, c, false)
-			for _, a := range x.Call.Args {
-				w.walkExpr(a, c)
-			}
-		} else {
-			w.walkExpr(x.Call, c)
-		}
-	case *ast.ReturnStmt:
-		rc := c
-		rc.inRet = true
-		for _, r := range x.Results {
-			w.walkExpr(r, rc)
-			if ue, ok := r.(*ast.UnaryExpr); ok && ue.Op == token.AND {
-				if cl, ok := ue.X.(*ast.CompositeLit); ok {
-					if id, ok := cl.Type.(*ast.Ident); ok && id.Name == w.m.recvType {
-						w.literal(cl)
-					}
-				}
-			}
-		}
-	case *ast.BlockStmt:
-		w.walkBlock(x.List, c, false)
-	case *ast.IfStmt:
-		w.walkStmt(x.Init, c)
-		w.walkExpr(x.Cond, c)
-		w.walkBlock(x.Body.List, c, false)
-		w.walkStmt(x.Else, c)
-	case *ast.ForStmt:
-		lc := c
-		lc.loop = true
-		w.walkStmt(x.Init, c)
-		w.walkExpr(x.Cond, lc)
-		w.walkStmt(x.Post, lc)
-		w.walkBlock(x.Body.List, lc, false)
-	case *ast.RangeStmt:
-		lc := c
-		lc.loop = true
-		w.walkExpr(x.X, c)
-		w.walkBlock(x.Body.List, lc, false)
-	case *ast.SwitchStmt:
-		w.walkStmt(x.Init, c)
-		w.walkExpr(x.Tag, c)
-		w.walkBlock(x.Body.List, c, false)
-	case *ast.TypeSwitchStmt:
-		w.walkStmt(x.Init, c)
-		w.walkStmt(x.Assign, c)
-		w.walkBlock(x.Body.List, c, false)
-	case *ast.SelectStmt:
-		w.walkBlock(x.Body.List, c, false)
-	case *ast.CaseClause:
-		for _, e := range x.List {
-			w.walkExpr(e, c)
-		}
-		w.walkBlock(x.Body, c, false)
-	case *ast.CommClause:
-		w.walkStmt(x.Comm, c)
-		w.walkBlock(x.Body, c, false)
-	case *ast.LabeledStmt:
-		w.walkStmt(x.Stmt, c)
-	case *ast.SendStmt:
-		w.walkExpr(x.Chan, c)
-		w.walkExpr(x.Value, c)
-	case *ast.DeclStmt:
-		if gd, ok := x.Decl.(*ast.GenDecl); ok {
-			for _, sp := range gd.Specs {
-				if vs, ok := sp.(*ast.ValueSpec); ok {
-					for _, v := range vs.Values {
-						w.walkExpr(v, c)
-					}
-				}
-			}
-		}
-	case *ast.BranchStmt, *ast.EmptyStmt:
-	default:
-		w.unknown(fmt.Sprintf("<statement %T>", s), c, s)
-	}
 }
 
 func (w *walker) literal(cl *ast.CompositeLit) {
@@ -899,6 +657,9 @@ func (w *walker) walkExpr(e ast.Expr, c wctx) {
 	case *ast.UnaryExpr:
 		if x.Op == token.AND {
 			if f, rest, ok := w.rootField(x.X); ok {
+				if rest == "" && w.isMutexField(f) {
+					return // &recv.mutex: taking the address of the lock itself
+				}
 				if _, isAlias := x.X.(*ast.Ident); !isAlias {
 					if rest == "" {
 						w.add(f, "addrOf", c, "", x)
@@ -934,9 +695,7 @@ func (w *walker) walkExpr(e ast.Expr, c wctx) {
 		if c.inRet {
 			w.unknown("<function literal returned to the caller>", c, x)
 		}
-		cc := c
-		cc.inRet = false
-		w.walkBlock(x.Body.List, cc, false)
+		w.flowClosure(x.Body.List, false)
 	case *ast.ArrayType, *ast.MapType, *ast.ChanType, *ast.FuncType, *ast.InterfaceType, *ast.StructType, *ast.Ellipsis:
 	default:
 		w.unknown(fmt.Sprintf("<expression %T>", e), c, e)
@@ -994,7 +753,7 @@ func (w *walker) walkCall(x *ast.CallExpr, c wctx) {
 		}
 		if id, ok := fn.X.(*ast.Ident); ok && id.Name == w.recv {
 			if _, isMethod := w.tf.byName[fn.Sel.Name]; isMethod {
-				w.m.calls = append(w.m.calls, callEdge{callee: fn.Sel.Name, mode: c.mode, sub: c.sub,
+				w.m.calls = append(w.m.calls, callEdge{phase: w.phase(), callee: fn.Sel.Name, mode: c.mode, sub: c.sub,
 					tail: c.inRet && c.before && c.mode == "none", inLoop: c.loop, goro: c.goro, line: w.p.line(x)})
 				args(0)
 				return
@@ -1029,8 +788,8 @@ func (w *walker) walkCall(x *ast.CallExpr, c wctx) {
 		args(0)
 		return
 	case *ast.FuncLit:
-		w.walkBlock(fn.Body.List, argc, false)
 		args(0)
+		w.flowClosure(fn.Body.List, true) // immediately invoked: runs here, under the locks held here
 		return
 	case *ast.ParenExpr, *ast.ArrayType, *ast.MapType, *ast.StarExpr, *ast.InterfaceType, *ast.ChanType, *ast.FuncType:
 		// conversion
@@ -1438,7 +1197,10 @@ func genLockFacts(util, logp, scp *pkgSrc) string {
 		fmt.Fprintf(&sb, "def %sInfo : TypeInfo :=\n  { name := %s, fields := %s, mutexes := %s, primary := %s, otherLocks := %s }\n\n",
 			ln, leanStr(e.name), leanStrList(tf.si.fields), leanStrList(tf.si.mutexes), leanStr(tf.si.primary), leanStrList(tf.si.foreign))
 		var ms []string
-		for _, m := range tf.methods {
+		// sorted by name: the tables must not depend on the order of the declarations or on the file they are in
+		sorted := append([]*method(nil), tf.methods...)
+		sort.Slice(sorted, func(i, j int) bool { return sorted[i].name < sorted[j].name })
+		for _, m := range sorted {
 			// one definition per method keeps elaboration of the big literal cheap and gives `decide` small terms
 			dn := ln + "_" + m.name
 			fmt.Fprintf(&sb, "def %s : Method :=\n    %s\n\n", dn, leanMethod(m))
